@@ -988,3 +988,34 @@ def component_removals(prog, component):
                     "remove", "take", "remove_by_id", "retain", "remove_with_requires", "clear", "try_remove"):
                 out.append((body, b, tail(fn_name(fr), 2)))
     return out
+
+
+def const_variant(body, op, depth=0):
+    """name of the unit enum variant a (reference to a) constant operand stands for, read from the promoted constants the
+    driver prints (`&ReactorMode::Persistent` in `*self == ReactorMode::Persistent`), else None"""
+    if depth > 6 or op is None:
+        return None
+    c = op.get("const") if isinstance(op, dict) else None
+    if c is not None:
+        m = re.search(r"promoted\[(\d+)\]$", c.get("repr", "") or "")
+        proms = body.raw.get("promoted") or []
+        if m and int(m.group(1)) < len(proms):
+            for st in proms[int(m.group(1))]:
+                mm = re.match(r"^_\d+ = (?:const )?([\w:]+)::(\w+)$", st.strip())
+                if mm and not st.strip().endswith("&_1"):
+                    return mm.group(2)
+        mm = re.search(r"::(\w+)$", c.get("repr", "") or "")
+        return mm.group(1) if mm and "promoted" not in c.get("repr", "") else None
+    p = op_place(op)
+    if p is None:
+        return None
+    ds = [d for d in body.defs.get(p["l"], []) if d[0] == "stmt"]
+    if len(ds) != 1:
+        return None
+    rv = ds[0][3]
+    if "use" in rv:
+        return const_variant(body, rv["use"], depth + 1)
+    q = rv.get("ref")
+    if q is not None:
+        return const_variant(body, {"copy": {"l": q["l"], "p": []}}, depth + 1)
+    return None
